@@ -1,12 +1,109 @@
 /-
-Driver operations for the Config model (line protocol). Core Lean only.
+Driver operations for the Config model (C20, line protocol). Core Lean only.
 `handle st words` returns `none` when the first word is not one of this module's operations.
+
+Values travel as `x<hex of the UTF-8 bytes>` (so the empty string is `x`), an absent
+source as `-`.
+
+  cfg keys                                   → `key:kind,key:kind,…` of the regenerated table
+  cfg envname <key>                          → environment variable viper consults for <key>
+  cfg resolve <key> <env|-> <file|->         → effective value of <key> (x<hex>) | unknown-key
+  cfg resolveu <key> <env|-> <file|->        → same, on the table with <key>'s viper default NOT registered
+  cfg reset | cfg setenv <key> <v> | cfg setfile <key> <v> | cfg dump
+                                             → whole-table resolution `key=x..;key=x..;…`
+  cfg validate <engine> <sqlitePathEmpty> <pgHost> <pgPort> <pgUser> <pgDb> <prepared> <preparedPathEmpty> <preparedExists>
+                                             → ok | refused:<reason>
+  cfg validate-nil                           → refused:nil-db
 -/
+import BHS.Model.Config
+import BHS.Gen.ConfigKeys
+
 namespace Driver.Ops.Config
+open BHS BHS.Config
 
 structure S where
-  unit : Unit := ()
+  env : List (String × String) := []
+  file : List (String × String) := []
 
-def handle (_st : S) (_ws : List String) : Option (S × String) := none
+private def hexDigit (c : Char) : Option UInt8 :=
+  if '0' ≤ c ∧ c ≤ '9' then some (c.toNat - 48).toUInt8
+  else if 'a' ≤ c ∧ c ≤ 'f' then some (c.toNat - 87).toUInt8
+  else none
+
+private def unhexBytes : List Char → Option (List UInt8)
+  | [] => some []
+  | a :: b :: r => do
+    let h ← hexDigit a
+    let l ← hexDigit b
+    let t ← unhexBytes r
+    pure ((h * 16 + l) :: t)
+  | _ => none
+
+/-- `x<hex>` → string. -/
+def decode (w : String) : Option String :=
+  match w.toList with
+  | 'x' :: r => (unhexBytes r).bind fun bs => String.fromUTF8? (ByteArray.mk bs.toArray)
+  | _ => none
+
+private def hexChar (n : UInt8) : Char :=
+  if n < 10 then Char.ofNat (48 + n.toNat) else Char.ofNat (87 + n.toNat)
+
+/-- string → `x<hex>`. -/
+def encode (s : String) : String :=
+  String.ofList ('x' :: s.toUTF8.toList.flatMap fun b => [hexChar (b / 16), hexChar (b % 16)])
+
+/-- `-` → absent, `x<hex>` → present. -/
+def source (w : String) : Option (Option String) :=
+  if w = "-" then some none else (decode w).map some
+
+def out : Option String → String
+  | some v => encode v
+  | none => "unknown-key"
+
+def flag (w : String) : Option Bool :=
+  if w = "1" then some true else if w = "0" then some false else none
+
+def unregister (keys : List KeyInfo) (key : String) : List KeyInfo :=
+  keys.map fun i => if i.key = key then { i with registered := false, viperDflt := "" } else i
+
+def one (keys : List KeyInfo) (key e f : String) : Option String := do
+  let e ← source e
+  let f ← source f
+  pure (out (effective keys (fun k => if k = key then e else none) (fun k => if k = key then f else none) key))
+
+def handle (st : S) : List String → Option (S × String)
+  | ["cfg", "keys"] => some (st, ",".intercalate (Gen.keys.map fun i => i.key ++ ":" ++ i.kind.name))
+  | ["cfg", "envname", key] => some (st, envName Gen.envPrefix key)
+  | ["cfg", "resolve", key, e, f] => some (st, (one Gen.keys key e f).getD "bad-args")
+  | ["cfg", "resolveu", key, e, f] => some (st, (one (unregister Gen.keys key) key e f).getD "bad-args")
+  | ["cfg", "reset"] => some ({}, "ok")
+  | ["cfg", "setenv", key, v] =>
+    match decode v with
+    | some v => some ({ st with env := (key, v) :: st.env }, "ok")
+    | none => some (st, "bad-args")
+  | ["cfg", "setfile", key, v] =>
+    match decode v with
+    | some v => some ({ st with file := (key, v) :: st.file }, "ok")
+    | none => some (st, "bad-args")
+  | ["cfg", "dump"] =>
+    some (st, ";".intercalate ((effectiveTable Gen.keys (ofList st.env) (ofList st.file)).map fun p => p.1 ++ "=" ++ out p.2))
+  | ["cfg", "validate-nil"] => some (st, (validateDb (fun _ => true) none).name)
+  | ["cfg", "validate", eng, sqE, host, port, user, db, prep, prepE, prepX] =>
+    let r : Option String := do
+      let eng ← decode eng
+      let sqE ← flag sqE
+      let host ← decode host
+      let port ← port.toNat?
+      let user ← decode user
+      let db ← decode db
+      let prep ← flag prep
+      let prepE ← flag prepE
+      let prepX ← flag prepX
+      let c : DbSection := { engine := eng, sqlitePath := if sqE then "" else "p", pgHost := host, pgPort := port,
+                             pgUser := user, pgDb := db, prepared := prep, preparedPath := if prepE then "" else "p" }
+      pure (validateDb (fun _ => prepX) (some c)).name
+    some (st, r.getD "bad-args")
+  | "cfg" :: _ => some (st, "bad-op")
+  | _ => none
 
 end Driver.Ops.Config
